@@ -293,6 +293,11 @@ fn check_case(case: &QCase, rules: &[Rule], st: &mut Stats) {
         }
         Verdict::NoVerdict(why) => {
             st.count("no_verdict_(Err_or_panic)");
+            if let Some(rest) = why.strip_prefix("panic: ") {
+                // which panic, by its class and frame (`msg at file:line [class|frame]`)
+                let tag = rest.rsplit_once('[').map(|(_, t)| t.trim_end_matches(']').to_string()).unwrap_or_else(|| "unclassified".into());
+                st.count(&format!("query_panicked_(no_answer_to_judge)::{}{}", if is_devopt_build() { "devopt-build::" } else { "" }, tag));
+            }
             if st.notes.len() < 10 {
                 st.notes.push(format!("no verdict: {}", why.chars().take(200).collect::<String>()));
             }
@@ -455,6 +460,9 @@ impl Check for C09 {
         ]
     }
 
+    fn devopt_scale(&self) -> Option<f64> {
+        Some(0.15)
+    }
     fn explore(&self, cli: &Cli, st: &mut Stats) {
         let nthreads = cli.threads;
         // ---- exhaustive family ----
